@@ -76,6 +76,79 @@ def compare_pairs(ctx, rule, fs, names, extra_info=False):
     return ok
 
 
+def _step(ty):
+    """Where method probing finds a receiver of this declared type: by value (0), by `&` (1), by `&mut` (2)."""
+    t = ty.strip()
+    if t.startswith("&mut "):
+        return 2
+    if t.startswith("&"):
+        return 1
+    return 0
+
+
+def shadow_rule(rs, rcalls, repo, type_prefix, names):
+    """Method-call syntax on a Position / Span must reach the pest-equal inherent function.
+
+    SHADOW: a trait of this crate that the type implements must not declare a method of the same name as an inherent method
+    with a receiver that method probing tries *earlier* (by value before `&` before `&mut`; inherent methods win ties): with the
+    trait in scope `x.name()` would silently resolve to the trait's method (seed C12-6: `Input::line_of(self)` by value).
+    CALLS: inside pest_typed every `x.name()` on a value of the type, for an inherent method name, resolves to the inherent function."""
+    from ..hir import walk, strip_generics
+    inherent = {}
+    for it in repo.item_list:
+        if it.get("kind") == "AssocFn" and it.get("has_self") and str(it.get("parent", "")).startswith(type_prefix + "<") \
+                and it.get("parent_kind") == "Impl { of_trait: false }" and it.get("inputs"):
+            inherent[it["name"]] = (_step(repo.tys(it["inputs"][0])), it["id"])
+    traits = {}
+    for it in repo.item_list:
+        if it.get("kind") == "AssocFn" and it.get("parent_kind") == "Trait" and it.get("has_self") and it.get("inputs") \
+                and str(it.get("parent", "")).startswith("pest_typed::"):
+            traits.setdefault(it["parent"], {})[it["name"]] = _step(repo.tys(it["inputs"][0]))
+    applies = {}
+    for im in repo.impls():
+        tr = im.get("trait")
+        if tr not in traits or im.get("self_ty") is None:
+            continue
+        st = repo.tys(im["self_ty"])
+        tdict = repo.types[im["self_ty"]]
+        if st.replace("&mut ", "").lstrip("&").startswith(type_prefix + "<") and not st.startswith("&"):
+            applies[tr] = "impl for the type"
+        elif tdict.get("k") == "param":
+            applies.setdefault(tr, "blanket impl over a type parameter")
+    for tr, how in sorted(applies.items()):
+        bad = []
+        for nm, tstep in sorted(traits[tr].items()):
+            if nm in inherent and tstep < inherent[nm][0]:
+                bad.append("%s (trait receiver is tried at probing step %d, the inherent method's at step %d)" % (nm, tstep, inherent[nm][0]))
+        key = "%s / %s" % (type_prefix.rsplit("::", 1)[-1], tr)
+        if bad:
+            rs.violate(key, "with the trait in scope, method-call syntax on a value resolves to the trait's method instead of the "
+                            "pest-equal inherent one: %s" % "; ".join(bad), None)
+        else:
+            rs.inst(key, None, "ok", {"how": how, "same_named": sorted(set(traits[tr]) & set(inherent))})
+    n = 0
+    for fid, bs in repo.bodies.items():
+        if "::tests::" in fid:
+            continue
+        for e in walk(bs[0]["value"]):
+            if e["k"] != "mcall" or not e.get("callee") or e.get("name") not in inherent:
+                continue
+            rt = e["recv"].get("ty")
+            if rt is None:
+                continue
+            t = repo.tys(rt).replace("&mut ", "").lstrip("&")
+            if not t.startswith(type_prefix + "<"):
+                continue
+            n += 1
+            cal = strip_generics(e["callee"]["path"])
+            want = strip_generics(inherent[e["name"]][1])
+            if cal != want:
+                rcalls.violate("%s | .%s()" % (fid, e["name"]), "resolves to %s, not to the inherent %s" % (cal, want), repo.loc(e.get("sp")))
+            else:
+                rcalls.inst("%s | .%s()" % (fid, e["name"]), repo.loc(e.get("sp")), nontrivial=False)
+    return n
+
+
 def run(ctx):
     fs = facts.load("core")
     pest = fs["pest"]
@@ -103,6 +176,13 @@ def run(ctx):
     rc = ctx.rule("R%s-CTOR" % ctx.prop[1:], "unchecked constructors used by the compared functions are pest's new_internal")
     okc = compare_pairs(ctx, rc, fs, CONSTRUCTORS)
     rc.require(2, "constructor pairs")
+    tp = "pest_typed::position::Position" if ctx.prop == "C12" else "pest_typed::span::Span"
+    rs = ctx.rule("R%s-SHADOW" % ctx.prop[1:], "no trait of pest_typed that the type implements declares a same-named method whose receiver is "
+                  "probed before the inherent (pest-equal) method's")
+    rcl = ctx.rule("R%s-CALLS" % ctx.prop[1:], "inside pest_typed, method calls on a value of the type resolve to the inherent (pest-equal) functions")
+    shadow_rule(rs, rcl, fs["pest_typed"], tp, names)
+    rs.require(1, "implemented traits")
+    rcl.require(10 if ctx.prop == "C12" else 10, "method calls")
     ctx.extra["programs"] = r.instances + rc.instances
     ctx.extra["disagreements_checked"] = len(r.violations) + len(rc.violations)
     ctx.explanation = ("Translation validation by sibling normal form: for each named function the typed HIR of the "
